@@ -113,3 +113,32 @@ example : (run (deployOne "n" (2 : Int) true) none Eru.Props.C10.witness).1 = .o
   decide
 
 end Eru.Props.C12
+
+namespace Eru.Props.C12
+open Eru.Cluster
+
+/-! ### environment assumption: writes are atomic with respect to the caller's cancellation
+
+All theorems above (and C10 / C11) use the store contract "a write either fails without effect or
+takes effect" — also when the caller's context ends: ckit makes recorded writes atomic in that sense.
+The real etcd client offers less: a write whose context ends while the request is in flight reports a
+context error although the server may still apply it, possibly AFTER the compensating delete of the
+rollback has run. `lateWrite` is that weaker contract for the metadata write of
+`doDeployOneWorkload`: the write reports failure, the rollback runs, then the write lands. -/
+
+/-- outcome of `doDeployOneWorkload` when its `store.AddWorkload` reports failure but is applied late -/
+def lateWrite (s : State Int) : Out Nat × State Int :=
+  let r := run (deployOne "n" (2 : Int) true) (some ⟨"storeAddWorkload", "n", 0⟩) s
+  (r.1, addWl ⟨s.next, "n", 2⟩ r.2.st)
+
+/-- **with the weaker contract the clauses fail**: the instance reports failure (C12: "each failure
+leaves no workload record … behind", C11: no lasting effect) yet its record exists, without a
+container, and the node's usage no longer equals the sum of its records (C10). Under the atomic
+contract `instance_failure_clean` excludes exactly this. -/
+theorem late_write_counterexample :
+    let r := lateWrite Eru.Props.C10.witness
+    r.1 = .fail ∧ (⟨2, "n", 2⟩ : Wl Int) ∈ r.2.wls ∧ (r.2.cts.all (fun c => c.id != 2)) = true ∧
+      r.2.usage "n" ≠ load r.2 "n" := by
+  decide
+
+end Eru.Props.C12
